@@ -29,6 +29,9 @@ MUST_OBSERVE = {"any": ["runs_judged", "inputs_hashed", "audit_windows", "struct
 SIZES = {"quick": dict(inproc=14, sub=2), "thorough": dict(inproc=260, sub=25)}
 SHARD_TIMEOUT = {"quick": 900, "thorough": 7200}
 K_ERRNODE = c08.K_ERRNODE
+# explicit single-file targets: ordinary, already ending in _cm, several dots, spaces, leading dot, non-ASCII
+SINGLE_NAMES = ["sheet.css", "sheet.css", "admin_cm.css", "normalize.min.css", "my sheet.css", ".hidden.css", "a_cm_cm.css", "thème.css", "x.y.z.css", "_cm.css"]
+DIR_NAMES = ["sheet0.css", "vendor.min.css", "print styles.css"]
 
 
 def shards(tier, seed):
@@ -154,10 +157,11 @@ def one_run(rec, lib, rnd, d, dir_mode, st, inproc):
     """Build a scratch tree, run the command, judge. Returns nothing."""
     files = {}
     nfiles = rnd.choice([2, 3]) if dir_mode else 1
+    single_name = rnd.choice(SINGLE_NAMES)
     dbg = (255, 255, 255) if st["default_bg"] is None else csscolor.read(st["default_bg"])
     for k in range(nfiles):
         sheet = SS.make_sheet(rnd, premium=st["premium"], default_bg=dbg, rich=True, tag=f"f{k}r")
-        name = f"sheet{k}.css" if dir_mode else "sheet.css"
+        name = DIR_NAMES[k] if dir_mode else single_name
         rel = name if (not dir_mode or k == 0) else os.path.join("sub", name)
         files[rel] = sheet
     for rel, sheet in files.items():
@@ -169,7 +173,7 @@ def one_run(rec, lib, rnd, d, dir_mode, st, inproc):
     with open(os.path.join(d, "notes.txt"), "w") as f:
         f.write("not a stylesheet\n")
     before = clirun.snapshot(d)
-    target_arg = "." if dir_mode else "sheet.css"
+    target_arg = "." if dir_mode else ("./" + single_name)
     args = c08.cli_args(target_arg, st)
     case = {"files": {rel: s.text for rel, s in files.items()}, "settings": st, "dir_mode": dir_mode}
     events = None
@@ -312,7 +316,7 @@ def replay(case):
         with open(p, "w", encoding="utf-8", newline="") as f:
             f.write(text)
     before = clirun.snapshot(d)
-    rc, out, err = clirun.run(c08.cli_args("." if case["dir_mode"] else "sheet.css", st), d, inprocess=False)
+    rc, out, err = clirun.run(c08.cli_args("." if case["dir_mode"] else "./" + sorted(case["files"])[0], st), d, inprocess=False)
     after = clirun.snapshot(d)
     print("settings", st, "dir_mode", case["dir_mode"])
     print(out)
